@@ -121,6 +121,19 @@ def exact(rep):
     an = rep.f(AM, "Automorphism._analyze")
     pm = parent_map(an.node)
     ndefs = local_defs(an.node)
+    # the units analysed one by one are the connected components themselves: a unit that is a union of several components lets VF2 swap
+    # isomorphic fragments inside it (counted as automorphisms, their atoms merged into one orbit)
+    from ..rules import provenance as PVa
+    from ..facts import iterations as _iters
+    for lp_ in [l for l in walk_local(an.node) if isinstance(l, (ast.For, ast.comprehension))]:
+        body_ = lp_.body if isinstance(lp_, ast.For) else [pm.get(lp_)]
+        if not any(isinstance(c_, ast.Call) and call_name(c_) == "_analyze_component" for b_ in body_ if b_ is not None for c_ in ast.walk(b_)):
+            continue
+        roots_ = PVa.all_roots(ndefs, lp_.iter)
+        merged_ = [r_ for r_ in roots_ for c_ in ast.walk(r_) if isinstance(c_, ast.Call) and call_name(c_) in ("union", "update", "chain") or (isinstance(c_, ast.BinOp) and isinstance(c_.op, ast.BitOr))]
+        if merged_:
+            rep.ob("O11.1", "SHAPE", an, False, merged_[0], "disconnected graphs: each connected component is analysed on its own (here a unit is a union of components: swaps of "
+                   "isomorphic fragments inside it are enumerated as automorphisms)", node=lp_ if isinstance(lp_, ast.For) else pm.get(lp_))
     comps = [nm_ for nm_, ds in ndefs.items() for d_ in ds if d_.kind == "assign" and norm(d_.value) == "self.components"]
     # normal form N24 reads a local that merely names `self.components` as the attribute itself
     direct = [n_ for n_ in walk_local(an.node) if isinstance(n_, ast.Attribute) and norm(n_) == "self.components"]
@@ -353,8 +366,19 @@ def consistency(rep):
     for c in [c for c in walk_local(fi.node) if isinstance(c, ast.Call) and call_name(c) == "Automorphism"]:
         gs = [(t, sn) for t, sn in guards_of(pm_c, c, fi.node) if sn]
         flags = []
+        def _conjuncts(e, depth=4):
+            """conjuncts of a test, through single-assigned flags and bool(..)"""
+            if depth <= 0:
+                return [e]
+            if isinstance(e, ast.Name) and len(cdefs.get(e.id, [])) == 1 and cdefs[e.id][0].kind == "assign" and cdefs[e.id][0].value is not None:
+                return _conjuncts(cdefs[e.id][0].value, depth - 1)
+            if isinstance(e, ast.Call) and isinstance(e.func, ast.Name) and e.func.id == "bool" and len(e.args) == 1:
+                return _conjuncts(e.args[0], depth - 1)
+            if isinstance(e, ast.BoolOp) and isinstance(e.op, ast.And):
+                return [x for v in e.values for x in _conjuncts(v, depth - 1)]
+            return [e]
         for t, sn in gs:
-            for conj in (t.values if isinstance(t, ast.BoolOp) and isinstance(t.op, ast.And) else [t]):
+            for conj in _conjuncts(t):
                 roots = PV.all_roots(cdefs, conj)
                 if any(norm(r) == "self.automorphism" for r in roots):
                     flags.append((conj, roots))
